@@ -202,3 +202,275 @@ Proof.
         rewrite (not_timer_pred j _ Hnt). reflexivity.
       * intros x j [<-|Hx] Hj; [discriminate|]. rewrite (getD_news_notimer _ _ _ Hx) in Hj. discriminate.
 Qed.
+
+(* ================================================================================================ *)
+(* multiples of MSS; segments in flight end above last_ack *)
+Lemma prefix_mult mm hist n :
+  0 < mm -> Forall (fun g => snd g = mm /\ mult mm (fst g)) hist -> prefix_len hist n -> mult mm n.
+Proof.
+  intros Hm Hh (H0 & Hcov & Hnot). destruct (Z.eq_dec n 0) as [->|Hn]; [exists 0; lia|].
+  destruct (Hcov (n - 1) ltac:(lia)) as (g & Hg & Hr). rewrite Forall_forall in Hh. destruct (Hh g Hg) as (Hs & k & Hk & Ek).
+  rewrite Hs in Hr.
+  assert (Hge : fst g + mm <= n).
+  { destruct (Z_le_gt_dec (fst g + mm) n) as [H|H]; [exact H|]. exfalso. apply Hnot. exists g. split; [exact Hg|]. rewrite Hs. lia. }
+  exists (k + 1). split; [lia|]. rewrite Ek in *. lia.
+Qed.
+
+Lemma oeff_kp_sub lc tau : forall o n1 nw kp k j, oeff lc tau n1 o = (nw, kp, k) -> In j kp -> exists z, In (Tx j z) o.
+Proof.
+  induction o as [|x o IH]; intros n1 nw kp k j; cbn [oeff].
+  - intros E; injection E as <- <- <-. intros [].
+  - destruct x as [id z|id r|id|id r].
+    + destruct (oeff lc tau (S n1) o) as [[nw1 kp1] k1] eqn:E1.
+      destruct (droppedD lc n1); intros E; injection E as <- <- <-; intros Hj.
+      * destruct (IH _ _ _ _ _ E1 Hj) as (z' & Hz). exists z'. right. exact Hz.
+      * destruct Hj as [<-|Hj]; [exists z; left; reflexivity|]. destruct (IH _ _ _ _ _ E1 Hj) as (z' & Hz). exists z'. right. exact Hz.
+    + destruct (oeff lc tau n1 o) as [[nw1 kp1] k1] eqn:E1. intros E; injection E as <- <- <-. intros Hj.
+      destruct (IH _ _ _ _ _ E1 Hj) as (z' & Hz). exists z'. right. exact Hz.
+    + intros E Hj. destruct (IH _ _ _ _ _ E Hj) as (z' & Hz). exists z'. right. exact Hz.
+    + destruct (oeff lc tau n1 o) as [[nw1 kp1] k1] eqn:E1. intros E; injection E as <- <- <-. intros Hj.
+      destruct (IH _ _ _ _ _ E1 Hj) as (z' & Hz). exists z'. right. exact Hz.
+Qed.
+
+Lemma mult_add mm a k : mult mm a -> 0 <= k -> mult mm (a + k * mm).
+Proof. intros (q & Hq & ->) Hk. exists (q + k). split; [lia|ring]. Qed.
+
+(* one sender transition *)
+Lemma step_mu c s e s' o :
+  0 < mss c -> SInv c s -> mult (mss c) (next_seq s) -> mult (mss c) (last_ack s) -> Forall (mult (mss c)) (sent s) ->
+  Forall (fun id => last_ack s < id + mss c) (sent s) -> last_ack s <= next_seq s ->
+  (match e with EAck a _ _ _ => mult (mss c) a /\ last_ack s <= a | _ => True end) ->
+  step repaired c s e = Ok s' o ->
+  mult (mss c) (last_ack s') /\ Forall (mult (mss c)) (sent s') /\ Forall (fun id => last_ack s' < id + mss c) (sent s') /\
+  (forall id z, In (Tx id z) o -> mult (mss c) id).
+Proof.
+  intros Hm I Mn Ml Ms Mu Hle He H. rewrite Forall_forall in Ms, Mu.
+  destruct e as [ackno pid sample orc|id| |]; cbn [step] in H.
+  - destruct He as [Ma Hfw]. apply on_ack_shape in H; [|apply I]. destruct H as (_ & _ & _ & _ & _ & [D|Nw]).
+    + destruct D as (Ea & L & _ & _ & S & _ & _ & _ & _ & _ & Hout). rewrite L, S.
+      split; [exact Ml|]. split; [apply Forall_forall; exact Ms|]. split; [apply Forall_forall; exact Mu|].
+      intros i z Hin. destruct Hout as [->|(-> & Hi & _)]; [destruct Hin|]. destruct Hin as [Ei|[]]. injection Ei as <- _. apply Ms, Hi.
+    + destruct Nw as (_ & L & _ & _ & S & Hout & _). rewrite L, S.
+      split; [exact Ma|]. split; [apply Forall_forall; intros i Hi; apply filter_In in Hi as [Hi _]; apply Ms, Hi|]. split.
+      * apply Forall_forall. intros i Hi. apply filter_In in Hi as [Hi Hn]. apply negb_true_iff in Hn.
+        destruct (Z_lt_ge_dec ackno (i + mss c)) as [Hlt|Hge]; [exact Hlt|]. exfalso.
+        assert (Hm2 : mem i (acked_ids repaired c s ackno pid) = true); [|congruence].
+        apply mem_In. unfold acked_ids, repaired; proj.
+        change (map fst (filter (fun p => fst p + mss c <=? ackno) (timers s)))
+          with (keys (filter (fun p => (fun x => x + mss c <=? ackno) (fst p)) (timers s))).
+        apply In_keys_filter. split; [rewrite (si_keys _ _ I); exact Hi|apply Z.leb_le; lia].
+      * intros i z Hin. rewrite Hout in Hin. apply in_map_iff in Hin as (? & ? & _). discriminate.
+  - apply on_timer_shape in H as (_ & -> & Hout). proj.
+    split; [exact Ml|]. split; [apply Forall_forall; exact Ms|]. split; [apply Forall_forall; exact Mu|].
+    intros i z Hin. destruct Hout as [->|(-> & Hi)]; [destruct Hin as [Ei|[]]; discriminate|].
+    destruct Hin as [Ei|[Ei|[]]]; [|discriminate]. injection Ei as <- _. apply Ms, Hi.
+  - apply on_storecb_shape in H as (-> & p & _ & [(_ & _ & ->)|(_ & ->)]); proj;
+      (split; [exact Ml|]); (split; [apply Forall_forall; exact Ms|]); (split; [apply Forall_forall; exact Mu|]); intros i z [].
+  - apply send_guard in H; [|exact Hm]. destruct H as (n & -> & _ & _ & Hse & _ & Hla & _). proj. rewrite Hla, Hse.
+    assert (Hnew : forall i, In i (seg_ids (mss c) (next_seq s) n) -> mult (mss c) i /\ last_ack s < i + mss c).
+    { intros i Hi. apply seg_ids_In in Hi as (k & _ & ->). split; [apply mult_add; [exact Mn|lia]|nia]. }
+    split; [exact Ml|]. split; [|split].
+    + apply Forall_forall. intros i Hi. apply in_app_or in Hi as [Hi|Hi]; [apply Ms, Hi|apply Hnew, Hi].
+    + apply Forall_forall. intros i Hi. apply in_app_or in Hi as [Hi|Hi]; [apply Mu, Hi|apply Hnew, Hi].
+    + intros i z Hin. cbn [app] in Hin. apply Hnew. eapply segs_tx_in; eauto.
+Qed.
+
+Record LInvMu (lc : lcfg) (st : lstate) : Prop := {
+  mu_la : mult (mss (lc_cfg lc)) (last_ack (l_snd st));
+  mu_sent : Forall (mult (mss (lc_cfg lc))) (sent (l_snd st));
+  mu_unacked : Forall (fun id => last_ack (l_snd st) < id + mss (lc_cfg lc)) (sent (l_snd st));
+  mu_wd : Forall (mult (mss (lc_cfg lc))) (wd_items (l_wd st));
+  mu_evd : forall b i, In b (l_agenda st) -> dataid_of (ae_ev b) = Some i -> mult (mss (lc_cfg lc)) i;
+  mu_sink : exists hist, Inv hist (l_sink st) /\ prefix_len hist (nse (l_sink st)) /\
+                         Forall (fun g => snd g = mss (lc_cfg lc) /\ mult (mss (lc_cfg lc)) (fst g)) hist;
+  mu_wa : Forall (fun r => mult (mss (lc_cfg lc)) (a_no r)) (wa_items (l_wa st));
+  mu_eva : forall b k, In b (l_agenda st) -> ackno_of (ae_ev b) = Some k -> mult (mss (lc_cfg lc)) k
+}.
+
+Lemma getD_mu lc tau w : Forall (mult (mss (lc_cfg lc))) (wd_items w) ->
+  Forall (mult (mss (lc_cfg lc))) (wd_items (snd (getD_eff tau w))) /\
+  (forall x i, In x (fst (getD_eff tau w)) -> dataid_of (snd x) = Some i -> mult (mss (lc_cfg lc)) i) /\
+  (forall x, In x (fst (getD_eff tau w)) -> ackno_of (snd x) = None).
+Proof.
+  intros H. unfold getD_eff. destruct (wd_items w) as [|y l]; cbn [fst snd wd_items].
+  - split; [constructor|]. split; [intros x i []|intros x []].
+  - inversion H as [|? ? Hy Hl]; subst. split; [exact Hl|]. split.
+    + intros x i [<-|[]] E. cbn in E. injection E as <-. exact Hy.
+    + intros x [<-|[]]. reflexivity.
+Qed.
+
+Lemma getA_mu lc tau w : Forall (fun r => mult (mss (lc_cfg lc)) (a_no r)) (wa_items w) ->
+  Forall (fun r => mult (mss (lc_cfg lc)) (a_no r)) (wa_items (snd (getA_eff tau w))) /\
+  (forall x k, In x (fst (getA_eff tau w)) -> ackno_of (snd x) = Some k -> mult (mss (lc_cfg lc)) k) /\
+  (forall x, In x (fst (getA_eff tau w)) -> dataid_of (snd x) = None).
+Proof.
+  intros H. unfold getA_eff. destruct (wa_items w) as [|y l]; cbn [fst snd wa_items].
+  - split; [constructor|]. split; [intros x i []|intros x []].
+  - inversion H as [|? ? Hy Hl]; subst. split; [exact Hl|]. split.
+    + intros x k [<-|[]] E. cbn in E. injection E as <-. exact Hy.
+    + intros x [<-|[]]. reflexivity.
+Qed.
+
+(* generic re-assembly: the new agenda's data ids and ACK numbers come from the old agenda or are justified *)
+Lemma Mu_agenda lc st a rest ag' news :
+  LInvMu lc st -> l_agenda st = a :: rest -> AddsT rest ag' news ->
+  (forall x i, In x news -> dataid_of (snd x) = Some i -> mult (mss (lc_cfg lc)) i) ->
+  (forall x k, In x news -> ackno_of (snd x) = Some k -> mult (mss (lc_cfg lc)) k) ->
+  (forall b i, In b ag' -> dataid_of (ae_ev b) = Some i -> mult (mss (lc_cfg lc)) i) /\
+  (forall b k, In b ag' -> ackno_of (ae_ev b) = Some k -> mult (mss (lc_cfg lc)) k).
+Proof.
+  intros M E HA Hd Ha. split.
+  - intros b i Hb Hi. destruct (AddsT_In_iff _ _ _ HA b Hb) as [Hold|Hnew].
+    + apply (mu_evd _ _ M b i); [rewrite E; right; exact Hold|exact Hi].
+    + apply (Hd _ _ Hnew). exact Hi.
+  - intros b k Hb Hk. destruct (AddsT_In_iff _ _ _ HA b Hb) as [Hold|Hnew].
+    + apply (mu_eva _ _ M b k); [rewrite E; right; exact Hold|exact Hk].
+    + apply (Ha _ _ Hnew). exact Hk.
+Qed.
+
+Lemma sender_news_nodata lc tau o n1 nw kp k s s' e x :
+  oeff lc tau n1 o = (nw, kp, k) -> In x (nw ++ extra_news tau s s' e) -> dataid_of (snd x) = None /\ ackno_of (snd x) = None.
+Proof.
+  intros Ho Hx. destruct (oeff_kinds lc tau o n1 nw kp k Ho) as [Hk _]. apply in_app_or in Hx as [Hx|Hx].
+  - rewrite Forall_forall in Hk. destruct (Hk x Hx) as [->|[(id & ->)|(id & r & ->)]]; split; reflexivity.
+  - apply extra_news_kind in Hx as [->| ->]; split; reflexivity.
+Qed.
+
+Lemma LInvMu_step lc st a rest st' :
+  0 < mss (lc_cfg lc) -> LInvA lc st None -> LInvB lc st None -> LInvC lc st None -> LInvMu lc st ->
+  l_agenda st = a :: rest -> Tr lc st a rest st' -> LInvMu lc st'.
+Proof.
+  intros Hm HA HB HC M E HT. pose proof M as [Ml Ms Mu Mw Med Msk Mwa Mea]. pose proof (la_sinv _ _ _ HA) as I.
+  assert (SameSnd : forall news, l_snd st' = l_snd st -> l_sink st' = l_sink st -> AddsT rest (l_agenda st') news ->
+                    Forall (mult (mss (lc_cfg lc))) (wd_items (l_wd st')) ->
+                    Forall (fun r => mult (mss (lc_cfg lc)) (a_no r)) (wa_items (l_wa st')) ->
+                    (forall x i, In x news -> dataid_of (snd x) = Some i -> mult (mss (lc_cfg lc)) i) ->
+                    (forall x k, In x news -> ackno_of (snd x) = Some k -> mult (mss (lc_cfg lc)) k) -> LInvMu lc st').
+  { intros news Es Ek HA' Hwd' Hwa' Hd Ha. destruct (Mu_agenda lc st a rest _ news M E HA' Hd Ha) as [A1 A2].
+    constructor; rewrite ?Es, ?Ek; auto. }
+  assert (Aev : forall i, dataid_of (ae_ev a) = Some i -> mult (mss (lc_cfg lc)) i) by (intros i Hi; apply (Med a i); [rewrite E; left; reflexivity|exact Hi]).
+  assert (Aak : forall k, ackno_of (ae_ev a) = Some k -> mult (mss (lc_cfg lc)) k) by (intros k Hk; apply (Mea a k); [rewrite E; left; reflexivity|exact Hk]).
+  destruct HT as [e isack s' o nw kp k nwa Hev Hstep Ho Hnow Hsnd Hsink Hn2 Hslog Hn1 Hwd Hif HA' Hkp Hkeep Hpkt
+                 | id r Hev Hfind Hk Hwd Hwa HA' | Hev Hk Hwd Hwa Hag | Hev Hk Hwa Hwd HA' | Hev Hk Hwd Hwa HA'
+                 | id tm ct Hev Hp Hq Hk Hwd Hwa HA' | ackno pid tm ct Hev Hq Hk Hwd Hwa HA'
+                 | id tm ct Hev Hp Hnow Hsnd Hpkt Hn1 Hslog Hsink Hn2 Hwd Hif].
+  - (* sender *)
+    assert (Hle : last_ack (l_snd st) <= next_seq (l_snd st)).
+    { pose proof (lb_la _ _ _ HB). pose proof (LInvB_nse_le lc st None Hm HB). lia. }
+    assert (He : match e with EAck k0 _ _ _ => mult (mss (lc_cfg lc)) k0 /\ last_ack (l_snd st) <= k0 | _ => True end).
+    { destruct e as [k0 p0 sm orc| | |]; auto.
+      assert (Hk0 : ackno_of (ae_ev a) = Some k0) by (inversion Hev; subst; reflexivity).
+      split; [apply Aak; exact Hk0|].
+      destruct (lb_eva _ _ _ HB (ae_ev a) k0) as [[A _] _]; [right; exists a; split; [rewrite E; left; reflexivity|reflexivity]|exact Hk0|exact A]. }
+    destruct (step_mu _ _ _ _ _ Hm I (sc_mult_ns _ _ (lcc_s _ _ _ HC)) Ml Ms Mu Hle He Hstep) as (L' & S' & U' & Tx').
+    assert (Hwa' : Forall (fun r => mult (mss (lc_cfg lc)) (a_no r)) (wa_items (l_wa st')) /\
+                   (forall x k0, In x nwa -> ackno_of (snd x) = Some k0 -> mult (mss (lc_cfg lc)) k0) /\
+                   (forall x, In x nwa -> dataid_of (snd x) = None)).
+    { destruct isack; destruct Hif as [-> ->]; [apply getA_mu; exact Mwa|]. split; [exact Mwa|]. split; intros x; [intros k0 []|intros []]. }
+    destruct Hwa' as (W1 & W2 & W3).
+    destruct (Mu_agenda lc st a rest _ _ M E HA') as [A1 A2].
+    { intros x i Hx Hi. apply in_app_or in Hx as [Hx|Hx].
+      - destruct (sender_news_nodata _ _ _ _ _ _ _ _ _ _ _ Ho Hx) as [D _]. congruence.
+      - rewrite (W3 x Hx) in Hi. discriminate. }
+    { intros x k0 Hx Hk0. apply in_app_or in Hx as [Hx|Hx].
+      - destruct (sender_news_nodata _ _ _ _ _ _ _ _ _ _ _ Ho Hx) as [_ D]. congruence.
+      - apply (W2 x k0 Hx Hk0). }
+    constructor; rewrite ?Hsnd, ?Hsink; auto.
+    rewrite Hwd. cbn [wd_items]. apply Forall_app. split; [exact Mw|]. apply Forall_forall. intros j Hj.
+    destruct (oeff_kp_sub lc _ _ _ _ _ _ j Ho Hj) as (z & Hz). eapply Tx'; eauto.
+  - destruct Hk as [k1 k2 k3 k4 k5 k6 k7]. unfold popped in *; lproj.
+    eapply SameSnd; eauto; rewrite ?Hwd, ?Hwa; auto; intros x ? [<-|[]]; discriminate.
+  - destruct Hk as [k1 k2 k3 k4 k5 k6 k7]. unfold popped in *; lproj.
+    eapply (SameSnd []); eauto; rewrite ?Hwd, ?Hwa; auto; [rewrite Hag; constructor| |]; intros x ? [].
+  - destruct Hk as [k1 k2 k3 k4 k5 k6 k7]. unfold popped in *; lproj.
+    destruct (getD_mu lc (ae_time a) (l_wd st) Mw) as (G1 & G2 & G3).
+    eapply SameSnd; eauto; rewrite ?Hwd, ?Hwa; auto. intros x k0 Hx Hk0. rewrite (G3 x Hx) in Hk0. discriminate.
+  - destruct Hk as [k1 k2 k3 k4 k5 k6 k7]. unfold popped in *; lproj.
+    destruct (getA_mu lc (ae_time a) (l_wa st) Mwa) as (G1 & G2 & G3).
+    eapply SameSnd; eauto; rewrite ?Hwd, ?Hwa; auto. intros x i Hx Hi. rewrite (G3 x Hx) in Hi. discriminate.
+  - destruct Hk as [k1 k2 k3 k4 k5 k6 k7]. unfold popped in *; lproj.
+    eapply SameSnd; eauto; rewrite ?Hwd, ?Hwa; auto.
+    + intros x i [<-|[]] Hi. cbn in Hi. injection Hi as <-. apply Aev. rewrite Hev. reflexivity.
+    + intros x k0 [<-|[]]; discriminate.
+  - destruct Hk as [k1 k2 k3 k4 k5 k6 k7]. unfold popped in *; lproj.
+    eapply SameSnd; eauto; rewrite ?Hwd, ?Hwa; auto.
+    + intros x i [<-|[]]; discriminate.
+    + intros x k0 [<-|[]] Hk0. cbn in Hk0. injection Hk0 as <-. apply Aak. rewrite Hev. reflexivity.
+  - (* delivery *)
+    assert (Hid : dataid_of (ae_ev a) = Some id) by (destruct Hev as [->|[-> _]]; reflexivity).
+    pose proof (Aev id Hid) as Mid.
+    assert (Hid0 : 0 <= id).
+    { destruct (lb_evd _ _ _ HB (ae_ev a) id) as [A _]; [right; exists a; split; [rewrite E; left; reflexivity|reflexivity]|exact Hid|exact A]. }
+    destruct Msk as (hist & Hi & Hpf & Hh).
+    assert (Hi' : Inv (hist ++ [(id, mss (lc_cfg lc))]) (l_sink st')) by (rewrite Hsink; apply Inv_step; cbn [fst snd]; [lia|lia|exact Hi]).
+    assert (Hpf' : prefix_len (hist ++ [(id, mss (lc_cfg lc))]) (nse (l_sink st'))).
+    { rewrite Hsink in *. apply (ack_prefix _ _ id (mss (lc_cfg lc))) in Hi'. exact Hi'. }
+    assert (Hh' : Forall (fun g => snd g = mss (lc_cfg lc) /\ mult (mss (lc_cfg lc)) (fst g)) (hist ++ [(id, mss (lc_cfg lc))])).
+    { apply Forall_app. split; [exact Hh|]. constructor; [split; [reflexivity|exact Mid]|constructor]. }
+    pose proof (prefix_mult _ _ _ Hm Hh' Hpf') as Mnse.
+    destruct (getD_mu lc (ae_time a) (l_wd st) Mw) as (G1 & G2 & G3).
+    assert (Hnews : exists news, AddsT rest (l_agenda st') news /\
+                      (forall x i, In x news -> dataid_of (snd x) = Some i -> mult (mss (lc_cfg lc)) i) /\
+                      (forall x k0, In x news -> ackno_of (snd x) = Some k0 -> mult (mss (lc_cfg lc)) k0) /\
+                      Forall (fun r => mult (mss (lc_cfg lc)) (a_no r)) (wa_items (l_wa st'))).
+    { destruct (droppedA lc (l_n2 st)); destruct Hif as [Hwa HA'].
+      - eexists. split; [exact HA'|]. split; [exact G2|]. split; [intros x k0 Hx Hk0; rewrite (G3 x Hx) in Hk0; discriminate|rewrite Hwa; exact Mwa].
+      - eexists. split; [exact HA'|]. split; [|split].
+        + intros x i [<-|Hx] Hi0; [discriminate|eapply G2; eauto].
+        + intros x k0 [<-|Hx] Hk0; [discriminate|rewrite (G3 x Hx) in Hk0; discriminate].
+        + rewrite Hwa. cbn [wa_items]. apply Forall_app. split; [exact Mwa|]. constructor; [exact Mnse|constructor]. }
+    destruct Hnews as (news & HA' & N1 & N2 & N3).
+    destruct (Mu_agenda lc st a rest _ news M E HA' N1 N2) as [A1 A2].
+    constructor; rewrite ?Hsnd; auto.
+    + rewrite Hwd. exact G1.
+    + exists (hist ++ [(id, mss (lc_cfg lc))]). auto.
+Qed.
+
+Lemma linit_Tm lc cw ss rtt0 orc : LInvTm lc (linit cw ss rtt0 orc).
+Proof.
+  constructor; unfold linit, init; lproj; proj.
+  - intros id [].
+  - intros b j [<-|[<-|[<-|[]]]]; discriminate.
+Qed.
+
+Lemma linit_Mu lc cw ss rtt0 orc : LInvMu lc (linit cw ss rtt0 orc).
+Proof.
+  constructor; unfold linit, init; lproj; proj; try constructor.
+  - exists 0. lia.
+  - intros b i [<-|[<-|[<-|[]]]]; discriminate.
+  - exists []. split; [apply Inv_init|]. split; [|constructor].
+    unfold prefix_len, sink0; cbn [nse]. split; [lia|]. split; [intros b Hb; lia|]. intros (g & [] & _).
+  - intros b k [<-|[<-|[<-|[]]]]; discriminate.
+Qed.
+
+Lemma reach_V lc cw ss rtt0 orc st :
+  lc_ok2 lc -> (zq (mss (lc_cfg lc)) <= cw)%Q -> (0 < rtt0)%Q ->
+  lreach lc (linit cw ss rtt0 orc) st -> LInvTm lc st /\ LInvMu lc st.
+Proof.
+  intros Hok2 Hc Hr. pose proof (ok2_ok _ Hok2) as Hok. induction 1 as [|st st' Hreach IH Hstep].
+  - split; [apply linit_Tm|apply linit_Mu].
+  - destruct IH as [T M]. destruct (reach_C lc cw ss rtt0 orc st Hok2 Hc Hr Hreach) as [[HA HB] HC].
+    pose proof Hstep as Hs. unfold lstep in Hs. destruct (l_agenda st) as [|a rest] eqn:E; [discriminate|]. clear Hs.
+    pose proof (lstep_Tr lc st a rest st' (ok_fx _ Hok) E Hstep) as HT.
+    split; [eapply LInvTm_step; eauto; apply Hok|eapply LInvMu_step; eauto; apply Hok].
+Qed.
+
+(* THE SEGMENT AT last_ack IS IN FLIGHT; one kernel event per armed timer; nothing armed when all is acknowledged *)
+Theorem reach_U lc cw ss rtt0 orc st :
+  lc_ok2 lc -> (zq (mss (lc_cfg lc)) <= cw)%Q -> (0 < rtt0)%Q ->
+  lreach lc (linit cw ss rtt0 orc) st -> LInvU lc st.
+Proof.
+  intros Hok2 Hc Hr Hreach. pose proof (ok2_ok _ Hok2) as Hok. pose proof (ok_mss _ Hok) as Hm.
+  destruct (reach_V lc cw ss rtt0 orc st Hok2 Hc Hr Hreach) as [T M].
+  destruct (reach_C lc cw ss rtt0 orc st Hok2 Hc Hr Hreach) as [[HA HB] [Cs _]].
+  pose proof (la_sinv _ _ _ HA) as I.
+  constructor.
+  - apply T.
+  - intros Hlt. destruct (mu_la _ _ M) as (k & Hk & Ek). rewrite <- (si_keys _ _ I). rewrite Ek.
+    apply (sc_timers _ _ Cs k Hk); lia.
+  - intros Heq. assert (Es : sent (l_snd st) = []).
+    { destruct (sent (l_snd st)) as [|i l] eqn:Es; [reflexivity|]. exfalso.
+      pose proof (lb_sent _ _ _ HB) as Hs. pose proof (mu_unacked _ _ M) as Hu. rewrite Es in Hs, Hu.
+      inversion Hs as [|? ? [_ H1] _]; subst. inversion Hu as [|? ? H2 _]; subst. lia. }
+    pose proof (si_keys _ _ I) as Hk. rewrite Es in Hk. unfold keys in Hk. destruct (timers (l_snd st)); [reflexivity|discriminate].
+Qed.
